@@ -241,6 +241,179 @@ theorem stable_plain_nonstring (fenv : FEnv) (name : Str) (b : BTy) (v : Scalar)
   rcases hb with rfl | rfl <;>
   · cases v <;> simp_all [argOptions, defaultVal, postprocess, bconvOf]
 
+/-- container-typed leaves (List / Tuple / variadic tuple, items of any modelled type): a
+    container default is never a string, so it reaches `postprocess` untouched, which only fixes
+    the container kind it already has -/
+theorem stable_list (fenv : FEnv) (name : Str) (als : List Str) (item : ITy) (opt : Bool) (xs : List Scalar) (d : DefaultV)
+    (hc : containerConv item ≠ none) :
+    LeafStable fenv { name := name, ty := { inner := .list item, optional := opt }, default := d, aliases := als } (.list xs) := by
+  unfold LeafStable leafEmpty
+  cases hcc : containerConv item with
+  | none => exact absurd hcc hc
+  | some c =>
+    cases opt <;> simp [argOptions, defaultVal, postprocess, hcc, tupleToList]
+
+theorem stable_vtuple (fenv : FEnv) (name : Str) (als : List Str) (item : ITy) (opt : Bool) (xs : List Scalar) (d : DefaultV) :
+    LeafStable fenv { name := name, ty := { inner := .vtuple item, optional := opt }, default := d, aliases := als } (.tuple xs) := by
+  unfold LeafStable leafEmpty
+  cases opt <;> simp [argOptions, defaultVal, postprocess, listToTuple]
+
+theorem stable_tuple (fenv : FEnv) (name : Str) (als : List Str) (items : List ITy) (opt : Bool) (xs : List Scalar) (d : DefaultV)
+    (hc : tupleConv items ≠ none) :
+    LeafStable fenv { name := name, ty := { inner := .tuple items, optional := opt }, default := d, aliases := als } (.tuple xs) := by
+  unfold LeafStable leafEmpty
+  cases hcc : tupleConv items with
+  | none => exact absurd hcc hc
+  | some c =>
+    cases opt <;> simp [argOptions, defaultVal, postprocess, hcc, listToTuple]
+
+/-- an Optional leaf holding None stays None -/
+theorem stable_optional_none (fenv : FEnv) (name : Str) (als : List Str) (t : ITy) (d : DefaultV) :
+    LeafStable fenv { name := name, ty := { inner := .sc t, optional := true }, default := d, aliases := als } (.sc .none) := by
+  unfold LeafStable leafEmpty
+  simp [argOptions, defaultVal, postprocess]
+
+/-- `str` leaves: the default goes through `type=str`, which returns it -/
+theorem stable_str (fenv : FEnv) (name : Str) (als : List Str) (opt : Bool) (s : Str) (d : DefaultV) :
+    LeafStable fenv { name := name, ty := { inner := .sc (.base .str), optional := opt }, default := d, aliases := als } (.sc (.str s)) := by
+  unfold LeafStable leafEmpty
+  cases opt <;> simp [argOptions, defaultVal, postprocess, bconvOf, convOfItem, Conv.apply, BConv.apply]
+
+theorem stable_bool (fenv : FEnv) (name : Str) (als : List Str) (opt : Bool) (b : Bool) (d : DefaultV) :
+    LeafStable fenv { name := name, ty := { inner := .sc (.base .bool), optional := opt }, default := d, aliases := als } (.sc (.bool b)) := by
+  unfold LeafStable leafEmpty
+  cases opt <;> simp [argOptions, defaultVal, postprocess, bconvOf, convOfItem]
+
+theorem stable_path (fenv : FEnv) (name : Str) (als : List Str) (opt : Bool) (p : Str) (d : DefaultV) :
+    LeafStable fenv { name := name, ty := { inner := .sc (.base .path), optional := opt }, default := d, aliases := als } (.sc (.path p)) := by
+  unfold LeafStable leafEmpty
+  cases opt <;> simp [argOptions, defaultVal, postprocess, bconvOf, convOfItem]
+
+/-- a plain Enum leaf: the default is handed to argparse by NAME, `type=str` returns the name and
+    `postprocess` maps it back to the member -/
+theorem stable_enum (fenv : FEnv) (name : Str) (als : List Str) (cls : Str) (ms : List Str) (m : Str) (hm : m ∈ ms) (d : DefaultV) :
+    LeafStable fenv { name := name, ty := { inner := .sc (.base (.enum cls ms)), optional := false }, default := d, aliases := als }
+      (.sc (.enum cls m)) := by
+  unfold LeafStable leafEmpty
+  simp [argOptions, defaultVal, postprocess, Conv.apply, BConv.apply, hm]
+
+/-- `Optional[Enum]`: the member itself is the argparse default (no name round trip) -/
+theorem stable_enum_opt (fenv : FEnv) (name : Str) (als : List Str) (cls : Str) (ms : List Str) (m : Str) (d : DefaultV) :
+    LeafStable fenv { name := name, ty := { inner := .sc (.base (.enum cls ms)), optional := true }, default := d, aliases := als }
+      (.sc (.enum cls m)) := by
+  unfold LeafStable leafEmpty
+  simp [argOptions, defaultVal, postprocess, convOfItem]
+
+/-- a Union leaf holding a NON-string member value is stable (only string defaults are run through
+    the try-in-order parser — the open finding) -/
+theorem stable_union_nonstring (fenv : FEnv) (name : Str) (als : List Str) (alts : List BTy) (opt : Bool) (v : Scalar)
+    (hv : ∀ s, v ≠ .str s) (hn : v ≠ .none) (d : DefaultV) :
+    LeafStable fenv { name := name, ty := { inner := .sc (.union alts), optional := opt }, default := d, aliases := als } (.sc v) := by
+  unfold LeafStable leafEmpty
+  cases opt <;> cases v <;> simp_all [argOptions, defaultVal, postprocess, convOfItem]
+theorem stable_plain (fenv : FEnv) (name : Str) (als : List Str) (b : BTy) (opt : Bool) (v : Scalar)
+    (hb : b = .int ∨ b = .float ∨ b = .any) (hv : ∀ s, v ≠ .str s) (hn : v ≠ .none) (d : DefaultV) :
+    LeafStable fenv { name := name, ty := { inner := .sc (.base b), optional := opt }, default := d, aliases := als } (.sc v) := by
+  unfold LeafStable leafEmpty
+  rcases hb with rfl | rfl | rfl <;> cases opt <;> cases v <;>
+    simp_all [argOptions, defaultVal, postprocess, bconvOf, convOfItem]
+
+theorem stable_any_str (fenv : FEnv) (name : Str) (als : List Str) (opt : Bool) (s : Str) (d : DefaultV) :
+    LeafStable fenv { name := name, ty := { inner := .sc (.base .any), optional := opt }, default := d, aliases := als } (.sc (.str s)) := by
+  unfold LeafStable leafEmpty
+  cases opt <;> simp [argOptions, defaultVal, postprocess, bconvOf, convOfItem, Conv.apply, BConv.apply]
+
+/-- "the value `v` is a default of annotation `t` that the cascade returns unchanged": every
+    annotation of the command-line grammar with a value of its type, EXCEPT a string held by a
+    Union-typed (or int/float-typed) leaf -/
+inductive StableDefault : FTy → Val → Prop
+  | list (item opt xs) (h : containerConv item ≠ none) : StableDefault { inner := .list item, optional := opt } (.list xs)
+  | vtuple (item opt xs) : StableDefault { inner := .vtuple item, optional := opt } (.tuple xs)
+  | tuple (items opt xs) (h : tupleConv items ≠ none) : StableDefault { inner := .tuple items, optional := opt } (.tuple xs)
+  | optNone (t) : StableDefault { inner := .sc t, optional := true } (.sc .none)
+  | str (opt s) : StableDefault { inner := .sc (.base .str), optional := opt } (.sc (.str s))
+  | anyStr (opt s) : StableDefault { inner := .sc (.base .any), optional := opt } (.sc (.str s))
+  | bool (opt b) : StableDefault { inner := .sc (.base .bool), optional := opt } (.sc (.bool b))
+  | path (opt p) : StableDefault { inner := .sc (.base .path), optional := opt } (.sc (.path p))
+  | enum (cls ms m) (h : m ∈ ms) : StableDefault { inner := .sc (.base (.enum cls ms)), optional := false } (.sc (.enum cls m))
+  | enumOpt (cls ms m) : StableDefault { inner := .sc (.base (.enum cls ms)), optional := true } (.sc (.enum cls m))
+  | plain (b opt v) (hb : b = .int ∨ b = .float ∨ b = .any) (hv : ∀ s, v ≠ .str s) (hn : v ≠ .none) :
+      StableDefault { inner := .sc (.base b), optional := opt } (.sc v)
+  | union (alts opt v) (hv : ∀ s, v ≠ .str s) (hn : v ≠ .none) :
+      StableDefault { inner := .sc (.union alts), optional := opt } (.sc v)
+
+/-- **leaf stability is provable, not assumed, on the grammar**: the hypothesis `LeafStable` of the
+    C01 theorems holds for every leaf whose (instance or own) default value is a `StableDefault` of
+    its annotation — whatever the field's name, aliases and declared default. -/
+theorem leafStable_of_stableDefault (fenv : FEnv) (f : FieldSpec) (v : Val)
+    (h : StableDefault f.ty v) : LeafStable fenv f v := by
+  obtain ⟨name, ty, d, als⟩ := f
+  simp only at h
+  cases h with
+  | list item opt xs hc => exact stable_list fenv name als item opt xs d hc
+  | vtuple item opt xs => exact stable_vtuple fenv name als item opt xs d
+  | tuple items opt xs hc => exact stable_tuple fenv name als items opt xs d hc
+  | optNone t => exact stable_optional_none fenv name als t d
+  | str opt s => exact stable_str fenv name als opt s d
+  | anyStr opt s => exact stable_any_str fenv name als opt s d
+  | bool opt b => exact stable_bool fenv name als opt b d
+  | path opt p => exact stable_path fenv name als opt p d
+  | enum cls ms m hm => exact stable_enum fenv name als cls ms m hm d
+  | enumOpt cls ms m => exact stable_enum_opt fenv name als cls ms m d
+  | plain b opt v hb hv hn => exact stable_plain fenv name als b opt v hb hv hn d
+  | union alts opt v hv hn => exact stable_union_nonstring fenv name als alts opt v hv hn d
+
+mutual
+def FitsTyped (fenv : FEnv) : CTree → IVal → Prop
+  | .mk cls fs, .inst cls' ifs => cls = cls' ∧ FitsTypedF fenv fs ifs (.inst cls' ifs)
+  | .mk _ _, .nul => False
+def FitsTypedF (fenv : FEnv) : CFields → IFields → IVal → Prop
+  | .nil, .nil, _ => True
+  | .leaf f rest, .leaf n v irest, whole =>
+    n = f.name ∧ whole.getLeaf f.name = some v ∧ StableDefault f.ty v ∧ FitsTypedF fenv rest irest whole
+  | .child name optional _ t rest, .sub n v irest, whole =>
+    n = name ∧ whole.getSub name = some v ∧
+    (match v with
+     | .nul => optional = true ∧ QuietNone fenv t
+     | .inst c fs => FitsTyped fenv t (.inst c fs)) ∧
+    FitsTypedF fenv rest irest whole
+  | _, _, _ => False
+end
+
+mutual
+theorem fitsStable_of_typed (fenv : FEnv) : ∀ (t : CTree) (i : IVal), FitsTyped fenv t i → FitsStable fenv t i
+  | .mk cls fs, .inst cls' ifs, h => by
+    simp only [FitsTyped] at h
+    simp only [FitsStable]
+    exact ⟨h.1, fitsStableF_of_typed fenv fs ifs _ h.2⟩
+  | .mk _ _, .nul, h => by simp [FitsTyped] at h
+theorem fitsStableF_of_typed (fenv : FEnv) : ∀ (fs : CFields) (ifs : IFields) (whole : IVal),
+    FitsTypedF fenv fs ifs whole → FitsStableF fenv fs ifs whole
+  | .nil, .nil, _, _ => by simp [FitsStableF]
+  | .leaf f rest, .leaf n v irest, whole, h => by
+    simp only [FitsTypedF] at h
+    simp only [FitsStableF]
+    exact ⟨h.1, h.2.1, leafStable_of_stableDefault fenv f v h.2.2.1, fitsStableF_of_typed fenv rest irest whole h.2.2.2⟩
+  | .child name optional d t rest, .sub n v irest, whole, h => by
+    simp only [FitsTypedF] at h
+    simp only [FitsStableF]
+    refine ⟨h.1, h.2.1, ?_, fitsStableF_of_typed fenv rest irest whole h.2.2.2⟩
+    match v, h.2.2.1 with
+    | .nul, hv => exact hv
+    | .inst c fs, hv => exact fitsStable_of_typed fenv t (.inst c fs) hv
+  | .nil, .leaf _ _ _, _, h => by simp [FitsTypedF] at h
+  | .nil, .sub _ _ _, _, h => by simp [FitsTypedF] at h
+  | .leaf _ _, .nil, _, h => by simp [FitsTypedF] at h
+  | .leaf _ _, .sub _ _ _, _, h => by simp [FitsTypedF] at h
+  | .child _ _ _ _ _, .nil, _, h => by simp [FitsTypedF] at h
+  | .child _ _ _ _ _, .leaf _ _ _, _, h => by simp [FitsTypedF] at h
+end
+
+/-- **C01 (caller-supplied default instance), hypothesis-free on the grammar.** -/
+theorem c01_caller_default_typed (fenv : FEnv) (t : CTree) (i : IVal) (h : FitsTyped fenv t i) :
+    parseEmptyTop fenv t (some i) = .ok i :=
+  c01_caller_default fenv t i (fitsStable_of_typed fenv t i h)
+
 /-! non-vacuity: a two-level tree with an Optional member, a caller instance that fits it -/
 def demoTree : CTree :=
   .mk "K0".toList
@@ -257,5 +430,15 @@ def demoInst : IVal :=
 
 example : parseEmptyTop [] demoTree (some demoInst) = .ok demoInst := by rfl
 example : parseEmptyTop [] demoTree none = construct demoTree := by rfl
+
+/-- the demo instance below is typed: the theorem applies to it without any stability hypothesis
+    beyond the quietness of Optional members holding None -/
+example : FitsTyped [] demoTree demoInst := by
+  simp only [demoTree, demoInst, FitsTyped, FitsTypedF, IVal.getLeaf, IVal.getSub]
+  have h7 : StableDefault { inner := .sc (.base .int), optional := false } (.sc (.int 7)) :=
+    StableDefault.plain .int false (.int 7) (Or.inl rfl) (by intro s h; cases h) (by intro h; cases h)
+  have h9 : StableDefault { inner := .sc (.base .int), optional := false } (.sc (.int 9)) :=
+    StableDefault.plain .int false (.int 9) (Or.inl rfl) (by intro s h; cases h) (by intro h; cases h)
+  exact ⟨trivial, trivial, by rfl, h7, trivial, by rfl, ⟨trivial, trivial, by rfl, h9, trivial⟩, trivial⟩
 
 end SpVerif.C01
